@@ -93,24 +93,37 @@ def oracle_replay(run: pipe.Run, tree0):
 
 
 # ------------------------------------------------------------------ provenance of directories (signatures)
-def provenance(run: pipe.Run, upto=None):
+def provenance(run: pipe.Run, upto=None, taint=None):
     """How each directory currently in the tree came to be there, from the operation log:
-    path tuple -> set of tags."""
+    path tuple -> set of tags.  taint (a set), when given, collects every path ever held by a directory involved in a
+    name re-use before the first read (F10e)."""
     tags = {("R",): {"root"}, ("O",): {"outside-root"}}
     stale = set()               # in-tree paths of directories at the moment they were moved out of the tree
     for p, d in [(tuple(os.path.relpath(os.fsdecode(x), run.sc).split("/")), isd) for x, isd in run.init_fs]:
         if d and len(p) > 1:
             tags[p] = {"present-at-start"}
     pending_dirops = set()      # directory paths created since the last completed drain (no read yet)
+    vacated = {}                # name a not-yet-read directory was renamed away from -> its current path (until the next read)
+    TOOK, LOST = ("took-over-the-name-of-a-directory-renamed-before-its-first-read",
+                  "its-name-was-re-used-before-its-first-read")
+
+    def arrives(path):
+        if path in vacated:
+            tags[path].add(TOOK)
+            if vacated[path] in tags:
+                tags[vacated[path]].add(LOST)
+
     for ent in run.log[:upto]:
         if ent["a"] == "read":
             pending_dirops.clear()
+            vacated.clear()
         if ent["a"] != "op" or not ent["ok"]:
             continue
         p = tuple(ent["path"])
         if ent["kind"] == "mkdir":
             tags[p] = {"created"}
             pending_dirops.add(p)
+            arrives(p)
         elif ent["kind"] == "rmdir":
             tags.pop(p, None)
         elif ent["kind"] == "rename" and p in tags:
@@ -140,12 +153,25 @@ def provenance(run: pipe.Run, upto=None):
                     if p[0] == "R" and q[0] == "O":
                         nv.add("ancestor-moved-out")
                 tags[q + k[len(p):]] = nv
+            for name, cur in list(vacated.items()):
+                if cur[:len(p)] == p:
+                    vacated[name] = q + cur[len(p):]
             if p in pending_dirops:
                 pending_dirops.discard(p)
                 pending_dirops.add(q)
+                if p[0] == "R":
+                    vacated[p] = q
             elif p[0] == "O" and q[0] == "R":
                 pending_dirops.add(q)        # a directory that has just arrived from outside
+            if q[0] == "R":
+                arrives(q)
+        if taint is not None:
+            taint.update(k for k, v in tags.items() if TOOK in v or LOST in v)
     return tags
+
+
+F10E_TAGS = ("took-over-the-name-of-a-directory-renamed-before-its-first-read",
+             "its-name-was-re-used-before-its-first-read")
 
 
 def cause_of(tags):
@@ -155,7 +181,28 @@ def cause_of(tags):
         return "stale-path-of-moved-out-directory-reused-before-first-read"
     if ({"moved-out", "ancestor-moved-out"} & tags) and ({"moved-in-from-outside", "ancestor-moved-in"} & tags):
         return "directory-left-the-tree-and-came-back"
+    if {"took-over-the-name-of-a-directory-renamed-before-its-first-read", "its-name-was-re-used-before-its-first-read"} & tags:
+        return "name-of-a-directory-renamed-before-its-first-read-re-used-before-that-read"
     return "other"
+
+
+def tags_of_paths_upto(run: pipe.Run, paths, upto):
+    """Tags for classifying an unjustified event delivered at log index upto: the tags of the directories containing
+    the paths, plus the F10e tag when a path lies under a name ever held by a directory involved in a name re-use
+    before its first read (the wrong label can be any of those names)."""
+    taint = set()
+    prov = provenance(run, upto, taint)
+    out = set()
+    for p in paths:
+        rel = tuple(os.path.relpath(os.fsdecode(p), run.sc).split("/"))
+        if any(rel[:len(t)] == t for t in taint):
+            out.add("its-name-was-re-used-before-its-first-read")
+        while rel and rel not in prov:
+            rel = rel[:-1]
+        while len(rel) > 1:
+            out |= prov.get(rel, set())
+            rel = rel[:-1]
+    return out
 
 
 def tags_of_paths(run: pipe.Run, paths):
@@ -209,7 +256,8 @@ def oracle_probes(run: pipe.Run):
         want = os.fsencode(probe)
         created = [e for e in evs if e[0] == "FileCreated"]
         expected = run.recursive or d == run.rootp
-        tagset = sorted(prov.get(rel, {"?"}))
+        tagset = sorted(prov.get(rel, {"?"}) | {t for i in range(2, len(rel)) for t in prov.get(rel[:i], ())
+                                                if t in F10E_TAGS})        # F10e is inherited from the ancestors
         if expected:
             if not any(e[1] == want for e in created):
                 bad.append({"law": "probe-not-reported", "dir": "/".join(rel), "provenance": tagset,
